@@ -133,7 +133,7 @@ int cmd_gstrf(const case_t *c)
     int expect_sing = (int)cint(c, "expect_singular", 0);
     if (info == 0 || (info > 0 && info <= n)) {
         long nsuper = 0, maxsup = 0;
-        int vbad = validate_LU(&L, &U, perm_r, opt.perm_c, n, info == 0 ? "C09" : "C06|factors", &nsuper, &maxsup);
+        int vbad = info == 0 ? validate_LU(&L, &U, perm_r, opt.perm_c, n, "C09", &nsuper, &maxsup) : walk_LU(&L, &U, n, "C06|factors");
         jo_int("nsuper", nsuper); jo_int("maxsup", maxsup);
         if (vbad && info == 0) jo_fail("C02|factors-malformed", "info = 0 but the returned L/U/permutations are not well-formed (%d structural defects): no factorization to check", vbad);
         int_t *ff = vbad ? NULL : final_first(&L, n);
@@ -263,10 +263,25 @@ int cmd_gssv(const case_t *c)
             jo_dbl("recon", (double)rr); jo_dbl("resid", (double)xr); jo_dbl("growth", (double)growth);
             free(W); free(Gd); lud_free(&d);
         }
-        if (expect_sing) jo_fail("C06|singular-not-reported", "singular matrix but info = 0");
+        if (expect_sing == 1) jo_fail("C06|singular-not-reported", "singular matrix but info = 0");
     } else if (info > 0 && info <= n) {
         if (!expect_sing) jo_fail("C01|info-nonzero", "simple driver returned info=%ld for a nonsingular matrix", (long)info);
         if (memcmp(b, b0, (size_t)ldb * nrhs * sizeof(elem_t))) jo_fail("C06|B-changed", "info=%ld > 0 but B was modified", (long)info);
+        if (!is_perm(perm_c, n)) jo_fail("C06|perm_c-not-bijection", "perm_c is not a permutation");
+        else if (cint(c, "zerocol", -1) >= 0) {
+            long want = perm_c[cint(c, "zerocol", 0)] + 1;
+            jo_int("first_deficient", want);
+            if (want != info) jo_fail("C06|wrong-index", "info = %ld but the all-zero column sits at position %ld of A*Pc", (long)info, want);
+        } else if (cint(c, "onesblock", 0)) {
+            long want = ones_expected_info(perm_c);
+            jo_int("first_deficient", want);
+            if (want != info) jo_fail("C06|wrong-index", "info = %ld but exact cancellation first occurs at column %ld of A*Pc", (long)info, want);
+        } else if (cint(c, "generic_singular", 0)) {
+            long want = struct_rank_prefix(&G, perm_c);
+            jo_int("first_deficient", want);
+            if (want != info) jo_fail("C06|wrong-index", "info = %ld but the first structurally deficient column prefix is %ld", (long)info, want);
+        }
+        walk_LU(&L, &U, n, "C06|factors");
     } else {
         jo_fail("C01|info-range", "simple driver returned info=%ld (n=%ld)", (long)info, (long)n);
     }
